@@ -130,10 +130,11 @@ func c06build(i int, rc c06rec, parsed bool) *obiseq.BioSequence {
 // ---- reference model ----
 
 type c06class struct {
-	Seq   string
-	Cat   string
-	Count int
-	Stats map[string]int
+	Seq     string
+	Cat     string
+	Count   int
+	Stats   map[string]int
+	Members int // number of input records
 }
 
 func c06key(seq, cat string) string { return seq + "|" + cat }
@@ -155,6 +156,7 @@ func c06model(recs []c06rec, cfg c06cfg) map[string]*c06class {
 			m[k] = cl
 		}
 		cl.Count += rc.N
+		cl.Members++
 		if cfg.Merge {
 			switch rc.M {
 			case 0:
@@ -484,29 +486,26 @@ func (x *c06ctx) checkUniq(site string, out obiseq.BioSequenceSlice, c c06case, 
 	}
 	for k, cl := range model {
 		if seen[k] == 0 {
-			if cfg.NoSingleton {
-				viol("nosingleton-drops-class-of-count>1")
+			if cfg.NoSingleton && cl.Members == 1 {
+				viol("class-lost:single-record-of-count>1-under-nosingleton")
 			} else {
 				viol("class-lost")
 			}
-			continue
 		}
-		if seen[k] != 1 {
-			continue
+	}
+	if reported {
+		return canon // the set of classes is already wrong: the accounting of the others follows from that
+	}
+	for _, o := range obs {
+		cl := model[c06key(o.Seq, o.Cat)]
+		if o.Count != cl.Count {
+			viol("count")
 		}
-		for _, o := range obs {
-			if c06key(o.Seq, o.Cat) != k {
-				continue
-			}
-			if o.Count != cl.Count {
-				viol("count")
-			}
-			if cfg.Merge {
-				if o.Err != "" {
-					viol("merged-map-missing")
-				} else if c06statsString(o.Stats) != c06statsString(cl.Stats) {
-					viol("merged-map")
-				}
+		if cfg.Merge {
+			if o.Err != "" {
+				viol("merged-map-missing")
+			} else if c06statsString(o.Stats) != c06statsString(cl.Stats) {
+				viol("merged-map")
 			}
 		}
 	}
@@ -724,6 +723,10 @@ func c06alphabet(name string) []c06rec {
 			if rc.C == 2 || !small {
 				continue
 			}
+		case "A8": // category {absent,x}; (count,k) in {(1,absent),(2,merged map)}
+			if rc.C == 2 || !(nm == [2]int{1, 0} || nm == [2]int{2, 2}) {
+				continue
+			}
 		case "A6": // no category attribute
 			if rc.C != 0 || !small {
 				continue
@@ -817,6 +820,7 @@ func c06blocks(thorough bool) []c06block {
 		add(c06block{Name: "mem/full", Alphabet: "A36", Nmax: 2, AllOrders: true, Cfgs: full(false, both)})
 		add(c06block{Name: "mem/full", Alphabet: "A12", Nmin: 3, Nmax: 3, AllOrders: true, Cfgs: full(false, both)})
 		add(c06block{Name: "mem/full-parsed", Alphabet: "A24", Nmin: 3, Nmax: 3, AllOrders: true, Cfgs: full(false, []bool{true})})
+		add(c06block{Name: "mem/full-parsed", Alphabet: "A8", Nmin: 4, Nmax: 4, AllOrders: true, Cfgs: full(false, []bool{true})})
 		add(c06block{Name: "mem/options", Alphabet: "A36", Nmax: 2, AllOrders: true,
 			Cfgs: c06axes{c06batchEnds, []int{1, 2, 3}, false, both, []int{1, 2}, []bool{true}, other}.cfgs})
 		add(c06block{Name: "disk/full", Alphabet: "A24", Nmax: 2, AllOrders: true, Cfgs: full(true, []bool{true})})
@@ -842,7 +846,7 @@ func c06blocks(thorough bool) []c06block {
 	add(c06block{Name: "mem/options", Alphabet: "A12", Nmin: 3, Nmax: 3, AllOrders: true,
 		Cfgs: c06axes{c06batches, []int{1, 2, 3}, false, both, []int{1, 2}, both, other}.cfgs})
 	add(c06block{Name: "disk/full", Alphabet: "A36", Nmax: 2, AllOrders: true, Cfgs: full(true, both)})
-	add(c06block{Name: "disk/full", Alphabet: "A12", Nmin: 3, Nmax: 3, AllOrders: true, Cfgs: full(true, both)})
+	add(c06block{Name: "disk/full", Alphabet: "A12", Nmin: 3, Nmax: 3, AllOrders: true, Cfgs: full(true, []bool{true})})
 	add(c06block{Name: "disk/options", Alphabet: "A24", Nmax: 2, AllOrders: true,
 		Cfgs: c06axes{c06batchEnds, []int{1, 2, 3}, true, both, []int{1, 2}, []bool{true}, other}.cfgs})
 	add(c06block{Name: "repeat", Alphabet: "A12", Nmin: 1, Nmax: 3, AllOrders: true, Reps: 5,
@@ -875,11 +879,15 @@ func c06enumerate(r *verifkit.Result, thorough bool, visit func(k, j int, blk st
 	}
 	r.Bound("blocks", desc)
 	r.Bound("sequences", c06seqs)
-	r.Bound("alphabets", "A36 = 2 seq x c{absent,x,y} x count{1,2} x k{absent,scalar,merged map}; A24 = A36 without c=y; A12 = 2 seq x c{absent,x} x (count,k) in {(1,absent),(2,scalar),(2,merged)}; A6 = A12 without c")
+	r.Bound("alphabets", "A36 = 2 seq x c{absent,x,y} x count{1,2} x k{absent,scalar,merged map}; A24 = A36 without c=y; A12 = 2 seq x c{absent,x} x (count,k) in {(1,absent),(2,scalar),(2,merged)}; A8 = 2 seq x c{absent,x} x (count,k) in {(1,absent),(2,merged)}; A6 = A12 without c")
 	// small inputs of every block first: a run stopped by its deadline has covered every block up to some size
+	only := os.Getenv("C06_ONLY") // debugging aid: restrict to the blocks whose name has this prefix
+	if only != "" {
+		r.Cap("C06_ONLY=" + only + " (debug filter)")
+	}
 	for n := 0; n <= nmax && !stop; n++ {
 		for _, blk := range blocks {
-			if n < blk.Nmin || n > blk.Nmax || stop {
+			if n < blk.Nmin || n > blk.Nmax || stop || !strings.HasPrefix(blk.Name, only) {
 				continue
 			}
 			types := c06alphabet(blk.Alphabet)
@@ -1018,6 +1026,10 @@ func c06child(t *testing.T) {
 			}
 		}
 		r.Count("cases:"+blk, 1)
+		if os.Getenv("C06_DRY") != "" { // debugging aid: count the cases without running them
+			r.Cap("C06_DRY")
+			return true
+		}
 		note(p, c)
 		x.eval(c)
 		if x.broken > 0 {
